@@ -129,4 +129,26 @@ PROPS = {
         "assumptions": ["successor order = the order in which the cfg enumerates next_blocks (printed by the harness)", "call-graph instance of wto<> not driven"],
         "trusted_base": COMMON_TB + ["model: CrabModel/Graph/Wto.lean, checker: CrabModel/Graph/WtoCheck.lean"],
     },
+    "C20": {
+        "level": "proof",
+        "lean_modules": ["CrabProofs.Props.C20"],
+        "components": [
+            {"harness": "h_num", "quick": 200000, "thorough": 4000000, "shards": 16,
+             "nontrivial": lambda l: not l.startswith(("(num.q_mk", "(num.q_ofz", "(num.neg"))},
+            {"harness": "h_lin", "quick": 50000, "thorough": 1000000, "shards": 16,
+             "nontrivial": lambda l: l.count("(") > 6},
+        ],
+        "rule": "boundary-biased numbers (0, +-1, around +-2^31, +-2^63, +-2^64, 40-digit; zero divisors; negative/huge shift amounts in a small share) x every z_number / q_number / safe_i64 operation; linear expressions built by random operation histories over <= 6 variables, constraints of all four kinds, systems; every answer compared with the model and with the mathematical meaning (evaluation on valuations)",
+        "assumptions": ["GMP = Int/Rat", "safe_i64 division by zero is never executed (would trap)", "shift amounts >= 2^64 are a recorded finding (F22)"],
+        "trusted_base": COMMON_TB + ["models: CrabModel/Num/{ZNum,ZNumExtra,QNum,SafeInt}.lean, CrabModel/Lin/*.lean"],
+    },
+    "C19": {
+        "level": "proof",
+        "lean_modules": ["CrabProofs.Props.C19"],
+        "components": [{"harness": "h_env", "quick": 100000, "thorough": 2000000, "shards": 16,
+                        "nontrivial": lambda l: l.count("(iv ") >= 3 or (l.startswith("(pset.") and l.count(" ") >= 6)}],
+        "rule": "separate_domain<Key, interval> and patricia_tree_set/discrete_domain with freely chosen 64-bit indices (dense, sparse, high bits, adversarial common prefixes): single operations on operands rebuilt from text, operands derived from each other (physical sharing) and whole histories over a pool of 6 environments; every answer compared with the tree model (pointer-equality oracle always false AND structural) and with a plain association-list spec map; non-trivial = at least 3 bindings involved",
+        "assumptions": ["widening_thresholds and transform of separate_domain are not modelled", "rename follows the documented precondition (targets unbound)"],
+        "trusted_base": COMMON_TB + ["models: CrabModel/Container/{Patricia,SeparateDomain,PSet}.lean"],
+    },
 }
